@@ -25,7 +25,7 @@ class DfaMonitor(object):
         self.lb = al.of[LB]
         self.rb = al.of[RB]
         if len(al.sets[self.lb]) != 1 or len(al.sets[self.rb]) != 1:
-            raise AssertionError('brackets are not singleton classes')
+            self.lb = self.rb = None      # a grammar without bracketed literals
         # (q, dead_age, lit, dead_in_lit)
         return (self.dfa.start, None, None, False)
 
